@@ -51,7 +51,10 @@ var specs = map[string]schedSpec{
 
 var probeT0 = time.Date(2020, 1, 1, 0, 0, 30, 0, time.UTC)
 
-func fingerprint(s scheduler.Schedule) string {
+// fingerprint: the first two times at which the scheduler will run the item, in seconds after the probe instant:
+// the schedule's firing time plus the item's offset (scheduler.Schedulable.Offset: "a duration that should be added to
+// the scheduled time"). With a zero offset this is the fingerprint of the schedule alone.
+func fingerprint(s scheduler.Schedule, offset time.Duration) string {
 	t1, err := s.Next(probeT0)
 	if err != nil {
 		return "err"
@@ -60,7 +63,27 @@ func fingerprint(s scheduler.Schedule) string {
 	if err != nil {
 		return "err"
 	}
-	return fmt.Sprintf("%d,%d", int(t1.Sub(probeT0)/time.Second), int(t2.Sub(probeT0)/time.Second))
+	return fmt.Sprintf("%d,%d", int(t1.Add(offset).Sub(probeT0)/time.Second), int(t2.Add(offset).Sub(probeT0)/time.Second))
+}
+
+// offsets of the offset family: "" = the task has no offset option
+var offsets = map[string]time.Duration{"": 0, "20s": 20 * time.Second, "40s": 40 * time.Second}
+
+// wantFP is the reference fingerprint of schedule spec + offset: the spec's firing offsets shifted by the task offset.
+func wantFP(spec, off string) string {
+	var a, b int
+	fmt.Sscanf(specs[spec].FP, "%d,%d", &a, &b)
+	d := int(offsets[off] / time.Second)
+	return fmt.Sprintf("%d,%d", a+d, b+d)
+}
+
+func offOfTask(t *taskmodel.Task) string {
+	for k, d := range offsets {
+		if d == t.Offset {
+			return k
+		}
+	}
+	return "?" + t.Offset.String()
 }
 
 func specOfTask(t *taskmodel.Task) string {
@@ -85,15 +108,26 @@ type store struct {
 
 var createdAt = time.Date(2019, 12, 31, 0, 0, 0, 0, time.UTC)
 
-func mkFlux(slot int, spec string) string {
+func mkFlux(slot int, spec, off string) string {
+	if off != "" {
+		return fmt.Sprintf("slot=%d;sched=%s;offset=%s", slot, spec, off)
+	}
 	return fmt.Sprintf("slot=%d;sched=%s", slot, spec)
 }
 
 func (s *store) CreateTask(ctx context.Context, tc taskmodel.TaskCreate) (*taskmodel.Task, error) {
 	var slot int
-	var spec string
-	if _, err := fmt.Sscanf(strings.ReplaceAll(tc.Flux, ";", " "), "slot=%d sched=%s", &slot, &spec); err != nil {
+	var spec, off string
+	script := strings.ReplaceAll(tc.Flux, ";", " ")
+	if i := strings.Index(script, " offset="); i >= 0 {
+		script, off = script[:i], script[i+len(" offset="):]
+	}
+	if _, err := fmt.Sscanf(script, "slot=%d sched=%s", &slot, &spec); err != nil {
 		return nil, fmt.Errorf("store: bad script %q", tc.Flux)
+	}
+	offDur, ok := offsets[off]
+	if !ok {
+		return nil, fmt.Errorf("store: bad offset %q", off)
 	}
 	sp, ok := specs[spec]
 	if !ok {
@@ -108,7 +142,7 @@ func (s *store) CreateTask(ctx context.Context, tc taskmodel.TaskCreate) (*taskm
 		st = string(taskmodel.TaskActive)
 	}
 	t := &taskmodel.Task{ID: id, OrganizationID: 1, OwnerID: 1, Name: fmt.Sprintf("t%d", slot), Status: st,
-		Flux: tc.Flux, Every: sp.Every, Cron: sp.Cron, CreatedAt: createdAt, LatestCompleted: createdAt}
+		Flux: tc.Flux, Every: sp.Every, Cron: sp.Cron, Offset: offDur, CreatedAt: createdAt, LatestCompleted: createdAt}
 	s.tasks[id] = t
 	cp := *t
 	return &cp, nil
@@ -161,6 +195,13 @@ func (s *store) UpdateTask(ctx context.Context, id platform.ID, u taskmodel.Task
 	if u.Options.Cron != "" {
 		t.Every, t.Cron = "", u.Options.Cron
 	}
+	if u.Options.Offset != nil { // as kv.Service.updateTask: the new offset option replaces the task's offset
+		d, err := time.ParseDuration(u.Options.Offset.String())
+		if err != nil {
+			return nil, err
+		}
+		t.Offset = d
+	}
 	if u.LatestCompleted != nil {
 		t.LatestCompleted = *u.LatestCompleted
 	}
@@ -187,13 +228,13 @@ func (s *store) DeleteTask(ctx context.Context, id platform.ID) error {
 
 type recorder struct {
 	flavour string
-	items   map[scheduler.ID]string // id -> fingerprint of the schedule it will run on
+	items   map[scheduler.ID]string // id -> fingerprint of the schedule (incl. offset) it will run on
 	calls   int
 }
 
 func (r *recorder) Schedule(t scheduler.Schedulable) error {
 	r.calls++
-	r.items[t.ID()] = fingerprint(t.Schedule())
+	r.items[t.ID()] = fingerprint(t.Schedule(), t.Offset())
 	return nil
 }
 
@@ -214,11 +255,14 @@ func (r *recorder) Release(id scheduler.ID) error {
 // ---------------------------------------------------------------------------------------
 
 type Op struct {
-	K      string `json:"op"` // create | status | sched | both | delete | restart
+	// create | status | sched | both | delete | restart; offset family: offset (offset only) | offsched (offset +
+	// schedule) | offstatus (offset + status), and create with Off
+	K      string `json:"op"`
 	Slot   int    `json:"slot,omitempty"`
 	Status string `json:"status,omitempty"` // "", active, inactive ("" only for create = default)
 	Sched  string `json:"sched,omitempty"`
-	Page   int    `json:"page,omitempty"` // restart: page size of the store's FindTasks
+	Off    string `json:"offset,omitempty"` // "", 20s, 40s ("" only for create = no offset option)
+	Page   int    `json:"page,omitempty"`   // restart: page size of the store's FindTasks
 }
 
 func (o Op) String() string {
@@ -228,6 +272,9 @@ func (o Op) String() string {
 		if st == "" {
 			st = "default"
 		}
+		if o.Off != "" {
+			return fmt.Sprintf("create(t%d,%s,%s,offset=%s)", o.Slot, st, o.Sched, o.Off)
+		}
 		return fmt.Sprintf("create(t%d,%s,%s)", o.Slot, st, o.Sched)
 	case "status":
 		return fmt.Sprintf("update(t%d,status=%s)", o.Slot, o.Status)
@@ -235,6 +282,12 @@ func (o Op) String() string {
 		return fmt.Sprintf("update(t%d,sched=%s)", o.Slot, o.Sched)
 	case "both":
 		return fmt.Sprintf("update(t%d,status=%s,sched=%s)", o.Slot, o.Status, o.Sched)
+	case "offset":
+		return fmt.Sprintf("update(t%d,offset=%s)", o.Slot, o.Off)
+	case "offsched":
+		return fmt.Sprintf("update(t%d,offset=%s,sched=%s)", o.Slot, o.Off, o.Sched)
+	case "offstatus":
+		return fmt.Sprintf("update(t%d,offset=%s,status=%s)", o.Slot, o.Off, o.Status)
 	case "delete":
 		return fmt.Sprintf("delete(t%d)", o.Slot)
 	}
@@ -262,11 +315,14 @@ func newWorld(flavour string) *world {
 
 func updOf(o Op) taskmodel.TaskUpdate {
 	var u taskmodel.TaskUpdate
-	if o.K == "status" || o.K == "both" {
+	if o.K == "status" || o.K == "both" || o.K == "offstatus" {
 		s := o.Status
 		u.Status = &s
 	}
-	if o.K == "sched" || o.K == "both" {
+	if o.K == "offset" || o.K == "offsched" || o.K == "offstatus" {
+		u.Options.Offset = options.MustParseDuration(o.Off)
+	}
+	if o.K == "sched" || o.K == "both" || o.K == "offsched" {
 		sp := specs[o.Sched]
 		if sp.Every != "" {
 			u.Options.Every = *options.MustParseDuration(sp.Every)
@@ -283,8 +339,8 @@ func (w *world) apply(o Op) string {
 	var err error
 	switch o.K {
 	case "create":
-		_, err = w.svc.CreateTask(ctx, taskmodel.TaskCreate{Flux: mkFlux(o.Slot, o.Sched), Status: o.Status, OrganizationID: 1, OwnerID: 1})
-	case "status", "sched", "both":
+		_, err = w.svc.CreateTask(ctx, taskmodel.TaskCreate{Flux: mkFlux(o.Slot, o.Sched, o.Off), Status: o.Status, OrganizationID: 1, OwnerID: 1})
+	case "status", "sched", "both", "offset", "offsched", "offstatus":
 		_, err = w.svc.UpdateTask(ctx, platform.ID(o.Slot), updOf(o))
 	case "delete":
 		err = w.svc.DeleteTask(ctx, platform.ID(o.Slot))
@@ -303,7 +359,15 @@ func (w *world) apply(o Op) string {
 }
 
 // mtask / model: the reference, written from the statement.
-type mtask struct{ Status, Sched string }
+type mtask struct{ Status, Sched, Off string }
+
+func (t mtask) String() string {
+	if t.Off == "" {
+		return "{" + t.Status + " " + t.Sched + "}"
+	}
+	return "{" + t.Status + " " + t.Sched + " offset=" + t.Off + "}"
+}
+
 type model map[int]mtask
 
 func (m model) clone() model {
@@ -326,22 +390,37 @@ func (m model) step(o Op) bool {
 		if st == "" {
 			st = "active"
 		}
-		m[o.Slot] = mtask{st, o.Sched}
+		m[o.Slot] = mtask{st, o.Sched, o.Off}
 	case "status":
 		if !ex {
 			return false
 		}
-		m[o.Slot] = mtask{o.Status, t.Sched}
+		m[o.Slot] = mtask{o.Status, t.Sched, t.Off}
 	case "sched":
 		if !ex {
 			return false
 		}
-		m[o.Slot] = mtask{t.Status, o.Sched}
+		m[o.Slot] = mtask{t.Status, o.Sched, t.Off}
 	case "both":
 		if !ex {
 			return false
 		}
-		m[o.Slot] = mtask{o.Status, o.Sched}
+		m[o.Slot] = mtask{o.Status, o.Sched, t.Off}
+	case "offset":
+		if !ex {
+			return false
+		}
+		m[o.Slot] = mtask{t.Status, t.Sched, o.Off}
+	case "offsched":
+		if !ex {
+			return false
+		}
+		m[o.Slot] = mtask{t.Status, o.Sched, o.Off}
+	case "offstatus":
+		if !ex {
+			return false
+		}
+		m[o.Slot] = mtask{o.Status, t.Sched, o.Off}
 	case "delete":
 		if !ex {
 			return false
@@ -357,7 +436,7 @@ func (m model) wanted() map[int]string {
 	out := map[int]string{}
 	for s, t := range m {
 		if t.Status == "active" {
-			out[s] = specs[t.Sched].FP
+			out[s] = wantFP(t.Sched, t.Off)
 		}
 	}
 	return out
@@ -372,7 +451,7 @@ type obs struct {
 func (w *world) observe() obs {
 	o := obs{Table: map[int]mtask{}, Sched: map[int]string{}}
 	for id, t := range w.st.tasks {
-		o.Table[int(id)] = mtask{t.Status, specOfTask(t)}
+		o.Table[int(id)] = mtask{t.Status, specOfTask(t), offOfTask(t)}
 	}
 	for id, fp := range w.rec.items {
 		o.Sched[int(id)] = fp
@@ -389,6 +468,10 @@ func (o obs) key(flavour string) string {
 	}
 	sort.Ints(ks)
 	for _, k := range ks {
+		if off := o.Table[k].Off; off != "" {
+			fmt.Fprintf(&b, "t%d=%s/%s+%s;", k, o.Table[k].Status, o.Table[k].Sched, off)
+			continue
+		}
 		fmt.Fprintf(&b, "t%d=%s/%s;", k, o.Table[k].Status, o.Table[k].Sched)
 	}
 	b.WriteString("|")
@@ -516,6 +599,9 @@ func sigOf(d string, last Op, mPre model) string {
 			st = "default"
 		}
 		feat = "status=" + st
+		if last.Off != "" {
+			feat += ",with-offset"
+		}
 		if _, ex := mPre[last.Slot]; ex {
 			feat += ",already-exists"
 		}
@@ -533,6 +619,22 @@ func sigOf(d string, last Op, mPre model) string {
 			if t, ex := mPre[last.Slot]; ex && t.Sched != last.Sched {
 				feat += ",schedule-changed"
 			}
+		}
+	case "offset", "offsched", "offstatus":
+		from, to := "absent", "absent"
+		t, ex := mPre[last.Slot]
+		if ex {
+			from, to = t.Status, t.Status
+			if last.K == "offstatus" {
+				to = last.Status
+			}
+		}
+		feat = "status:" + from + "->" + to
+		if ex && last.K == "offsched" && t.Sched != last.Sched {
+			feat += ",schedule-changed"
+		}
+		if ex && t.Off != last.Off {
+			feat += ",offset-changed"
 		}
 	case "delete":
 		if _, ex := mPre[last.Slot]; !ex {
@@ -554,12 +656,26 @@ func histString(h []Op) string {
 	return strings.Join(p, " ; ")
 }
 
-func opsFor(slots int, scheds, createStatuses []string) []Op {
+// opsFor: the op alphabet. offs == nil: the base family (no offsets anywhere). Otherwise the offset family: create
+// additionally with offset offs[0], and the three offset updates with every offset of offs.
+func opsFor(slots int, scheds, createStatuses, offs []string) []Op {
 	var ops []Op
 	for s := 1; s <= slots; s++ {
 		for _, st := range createStatuses {
 			for _, sc := range scheds {
 				ops = append(ops, Op{K: "create", Slot: s, Status: st, Sched: sc})
+				if len(offs) > 0 {
+					ops = append(ops, Op{K: "create", Slot: s, Status: st, Sched: sc, Off: offs[0]})
+				}
+			}
+		}
+		for _, off := range offs {
+			ops = append(ops, Op{K: "offset", Slot: s, Off: off})
+			for _, sc := range scheds {
+				ops = append(ops, Op{K: "offsched", Slot: s, Off: off, Sched: sc})
+			}
+			for _, st := range []string{"active", "inactive"} {
+				ops = append(ops, Op{K: "offstatus", Slot: s, Off: off, Status: st})
 			}
 		}
 		for _, st := range []string{"active", "inactive"} {
@@ -579,7 +695,9 @@ func opsFor(slots int, scheds, createStatuses []string) []Op {
 	return ops
 }
 
-func bfs(c *vlib.Ctx, flavour string, ops []Op) {
+// bfs: fam is "" for the base family and "offsets" for the offset family (only used in notes; the state key of a state
+// without offsets is the same in both).
+func bfs(c *vlib.Ctx, fam, flavour string, ops []Op) {
 	type node struct {
 		hist []Op
 	}
@@ -594,7 +712,7 @@ func bfs(c *vlib.Ctx, flavour string, ops []Op) {
 		var next []node
 		for _, nd := range frontier {
 			if c.Expired() {
-				c.Cap(fmt.Sprintf("budget hit in flavour %s at BFS depth %d; all shallower levels complete", flavour, depth))
+				c.Cap(fmt.Sprintf("budget hit in family %q flavour %s at BFS depth %d; all shallower levels (and every earlier search) complete", fam, flavour, depth))
 				return
 			}
 			for _, o := range ops {
@@ -639,7 +757,10 @@ func bfs(c *vlib.Ctx, flavour string, ops []Op) {
 		frontier = next
 		depth++
 	}
-	c.Extra("bfs_depth_"+flavour, int64(depth))
+	if fam != "" {
+		fam += "_"
+	}
+	c.Extra("bfs_depth_"+fam+flavour, int64(depth))
 }
 
 func TestCheck(t *testing.T) {
@@ -662,10 +783,20 @@ func TestCheck(t *testing.T) {
 			if c.Thorough() {
 				slots, scheds, cst = 3, []string{"e1m", "e2m", "c5", "c3"}, []string{"", "active", "inactive"}
 			}
-			ops := opsFor(slots, scheds, cst)
+			ops := opsFor(slots, scheds, cst, nil)
 			c.Extra("ops_per_state", int64(len(ops)))
 			for _, fl := range []string{"nil", "notclaimed"} {
-				bfs(c, fl, ops)
+				bfs(c, "", fl, ops)
+			}
+			// offset family: the same search with task offsets in the state and in the op alphabet
+			oscheds := scheds
+			if c.Thorough() {
+				oscheds = []string{"e1m", "e2m", "c5"}
+			}
+			oops := opsFor(slots, oscheds, cst, []string{"20s", "40s"})
+			c.Extra("ops_per_state_offsets", int64(len(oops)))
+			for _, fl := range []string{"nil", "notclaimed"} {
+				bfs(c, "offsets", fl, oops)
 			}
 		},
 		Replay: func(c *vlib.Ctx, raw json.RawMessage) (bool, string) {
